@@ -183,12 +183,19 @@ func ZDeflate(ops []ZOp, level, wbits, memlevel, strategy int) []byte {
 	}
 	defer C.z_enc_free(e)
 	var out []byte
+	totalIn := 0
 	for _, op := range ops {
-		buf := make([]byte, len(op.Data)*2+1024)
+		// room for everything zlib may still hold back (it buffers whole blocks): bounded by
+		// the input so far plus stored-block overhead
+		totalIn += len(op.Data)
+		buf := make([]byte, len(op.Data)*2+totalIn+totalIn/8+4096)
 		var p C.size_t
 		ret := C.z_enc_write(e, ptr(op.Data), C.size_t(len(op.Data)), C.int(op.Flush), ptr(buf), C.size_t(len(buf)), &p)
 		if ret < 0 && ret != C.Z_BUF_ERROR {
 			return nil
+		}
+		if op.Flush == 4 && ret != C.Z_STREAM_END {
+			return nil // not finished: never hand out an incomplete stream as a valid one
 		}
 		out = append(out, buf[:int(p)]...)
 	}
